@@ -331,7 +331,8 @@ func (w *vecWorld) step(r *prng.Rand, cs *fw.Case, nvar, order int) (string, str
 			}
 			seen[k] = true
 		}
-		if dup {
+		if dup || w.modelAmbiguous() {
+			// ties, or a zero-valued element that carries derivatives (its place among the zeros is not defined)
 			return "Sort(skipped-ties)", "", nil
 		}
 		rev := r.Bool()
@@ -467,10 +468,8 @@ func (w *vecWorld) step(r *prng.Rand, cs *fw.Case, nvar, order int) (string, str
 					applyScalarOp(aop, exp[i], w.m[i], rhs(i))
 				}
 				rw := &vecWorld{t: w.t, v: recv, m: exp, dense: rs == gen.Dense}
-				if !rw.modelAmbiguous() {
-					if f := rw.check(true); f != nil {
-						fail = &failure{f.kind, "on the receiver: " + f.msg}
-					}
+				if f := rw.check(true); f != nil {
+					fail = &failure{f.kind, "on the receiver: " + f.msg}
 				}
 			}
 		}
@@ -647,8 +646,7 @@ func runVectorHistory(cs *fw.Case, t gen.ElemType, steps int) {
 			return
 		}
 		if w.modelAmbiguous() {
-			cs.Cover("history-stopped:zero-value-with-derivative")
-			break
+			cs.Cover("history-with-zero-value-nonzero-derivative-element")
 		}
 		switch strings.SplitN(op, ":", 2)[0] {
 		case "iter-new", "iter-next", "Slice", "Clone", "at":
